@@ -20,7 +20,7 @@ var c16Digest [16]byte
 // symbolic bytes (so bytes 0..3 range over all 2^32 values), the argument is
 // recorded.
 //
-//verif:stub(H_c16_response) crypto/md5.Sum = stubMD5
+//verif:stub(H_c16_response,H_c03_handshake) crypto/md5.Sum = stubMD5
 func stubMD5(data []byte) [16]byte {
 	c16LastMD5Arg = append([]byte(nil), data...)
 	var d [16]byte
